@@ -17,16 +17,20 @@ import (
 
 // VerifHook is set by the harness (package api) before each MigrateFile call.
 var VerifHook struct {
-	Point        func(name string) // called at before_copy, after_copy, after_meta, after_delete
-	CopyMode     string            // "" real copy | "fail" no byte is copied | "midstream" the source read fails after CopyCut bytes
-	CopyCut      int               // midstream: 0 = no byte, 1 = one byte, 2 = half the file, 3 = all but the last byte
-	RecordFail   bool              // the tier_migrations insert (RecordMigration) returns an error
-	MetaFail     bool              // UpdateTier returns an error
-	RollbackFail bool              // deleting the cold copy during rollback fails
-	SourceFail   bool              // deleting the hot copy fails
+	Point        func(name string)              // called at before_copy, after_copy, after_meta, after_delete
+	PointM       func(m *Migrator, name string) // same, with the migrator instance (overlapping migrations)
+	CopyMode     string                         // "" real copy | "fail" no byte is copied | "midstream" the source read fails after CopyCut bytes
+	CopyCut      int                            // midstream: 0 = no byte, 1 = one byte, 2 = half the file, 3 = all but the last byte
+	RecordFail   bool                           // the tier_migrations insert (RecordMigration) returns an error
+	MetaFail     bool                           // UpdateTier returns an error
+	RollbackFail bool                           // deleting the cold copy during rollback fails
+	SourceFail   bool                           // deleting the hot copy fails
 }
 
-func verifPoint(name string) {
+func verifPointM(m *Migrator, name string) {
+	if VerifHook.PointM != nil {
+		VerifHook.PointM(m, name)
+	}
 	if VerifHook.Point != nil {
 		VerifHook.Point(name)
 	}
